@@ -62,6 +62,9 @@ let () = run_lines (fun toks ->
      | "sos_det" -> opt p2 (Model.sos_det (s 0) (s 1) small)
      | "sos_nonres" -> opt p2 (Model.sos_nonres (s 0) (s 1) (s 2) small)
      | "sos_noerh" -> opt p2 (Model.sos_noerh (s 0) (s 1) (s 2) small)
+     | "sos_mc" -> opt p2 (Model.sos_mc (s 0) (s 1) (l 2) small)
+     | "probable_prim_root" -> opt sz (Model.probable_prim_root (s 0) (pairs (l 1)) (l 2))
+     | "kronecker" -> sz (Model.kronecker_sym (s 0) (s 1))
      | "count_units" -> sz (Model.count_units (s 0))
      | _ -> "UNKNOWN-OP")
   | _ -> "BAD-LINE")
